@@ -636,3 +636,69 @@ def master_permutations(ctx, repo):
 
 
 C10.append(master_permutations)
+
+
+# ---------------------------------------------------------------------------
+# MAP-dir: user-space values go through map_forward, design-space values through map_backward
+# ---------------------------------------------------------------------------
+def map_direction(ctx, repo):
+    from ..cfg import CFG as _CFG, implied_conditions
+    from ..core import inline_locals
+
+    ctx.rule("MAP-dir", "an axis's map_forward takes user-space values (axis.minimum / default / maximum, a location the caller declared unmapped) to design space, map_backward takes design-space values (source / instance design locations) back; wherever the space of the argument or of the result is evident from the code, the direction matches it", floor=5)
+    USER_ATTRS = ("minimum", "maximum", "default")
+    n = 0
+    for rel in ("varLib/__init__.py", "varLib/interpolate_layout.py", "feaLib/variableScalar.py", "designspaceLib/types.py", "designspaceLib/split.py"):
+        m = repo.mod(rel)
+        for q, f in sorted(m.funcs.items()):
+            if isinstance(f.node, ast.Lambda):
+                continue
+            g = None
+            for c in walk_no_nested(f.node):
+                if not (isinstance(c, ast.Call) and isinstance(c.func, ast.Attribute) and c.func.attr in ("map_forward", "map_backward") and c.args):
+                    continue
+                arg = c.args[0]
+                # a comprehension variable stands for the elements of what it iterates (one step, locals inlined)
+                p = parent(c)
+                while p is not None and not isinstance(p, (ast.ListComp, ast.GeneratorExp, ast.DictComp, ast.SetComp, ast.stmt)):
+                    p = parent(p)
+                texts = [norm(arg)]
+                if isinstance(p, (ast.ListComp, ast.GeneratorExp, ast.DictComp, ast.SetComp)) and isinstance(arg, ast.Name):
+                    for gen in p.generators:
+                        if any(isinstance(x, ast.Name) and x.id == arg.id for x in ast.walk(gen.target)):
+                            texts.append(norm(inline_locals(f.node, gen.iter)))
+                want = None
+                why = ""
+                if any(("." + a) in t for t in texts for a in USER_ATTRS) and "designLocation" not in " ".join(texts):
+                    want, why = "map_forward", "the argument is an axis's user-space minimum / default / maximum"
+                elif "designLocation" in " ".join(texts):
+                    want, why = "map_backward", "the argument is a design location"
+                else:
+                    g = g or _CFG(f.node)
+                    conds = implied_conditions(g, c)
+                    if ("mapped", False) in conds:
+                        want, why = "map_forward", "the caller declared the location unmapped (user space)"
+                    elif ("mapped", True) in conds:
+                        want, why = "map_backward", "the location is already in design space"
+                    else:
+                        st = c
+                        while not isinstance(st, ast.stmt):
+                            st = parent(st)
+                        if isinstance(st, ast.Assign) and isinstance(st.targets[0], ast.Attribute) and st.targets[0].attr == "coordinates":
+                            want, why = "map_backward", "fvar instance coordinates are user-space values computed from design locations"
+                        elif isinstance(st, ast.Assign) and isinstance(st.targets[0], ast.Name):
+                            v = st.targets[0].id
+                            cmp_user = any(isinstance(x, ast.Compare) and any(isinstance(y, ast.Name) and y.id == v for y in ast.walk(x)) and any(isinstance(y, ast.Attribute) and y.attr in USER_ATTRS for y in ast.walk(x)) for x in ast.walk(f.node))
+                            if cmp_user:
+                                want, why = "map_backward", "the result is compared with the axis's user-space minimum / maximum"
+                if want is None:
+                    continue
+                n += 1
+                ctx.consult(rel)
+                ok = c.func.attr == want
+                ctx.ob("MAP-dir", f.where, f"{norm(c)[:60]}: {why}", ok, "" if ok else f"{want} is the conversion for that space; this call converts the other way")
+    if n < 5:
+        raise AnalysisError(f"MAP-dir: only {n} map_forward / map_backward sites with an evident space found")
+
+
+C10.append(map_direction)
